@@ -388,14 +388,14 @@ fn gen_pieces(rng: &mut Rng, len: usize, cfg: &GenCfg, first: bool, st: &mut Gen
             PathMix::AddOnly => Path::AddLoop,
             PathMix::All => {
                 if i == 0 && first {
-                    rng.pick(&[Path::AddLoop, Path::ExtendVal, Path::ExtendRef, Path::CollectVal, Path::CollectRef])
+                    rng.pick(&[Path::AddLoop, Path::ExtendVal, Path::ExtendRef, Path::CollectVal, Path::CollectRef, Path::DefaultCtor])
                 } else {
                     rng.pick(&[Path::AddLoop, Path::ExtendVal, Path::ExtendRef])
                 }
             }
             PathMix::WithFromValue => {
                 if i == 0 && first {
-                    rng.pick(&[Path::AddLoop, Path::FromValue, Path::CollectVal, Path::ExtendRef, Path::CollectRef])
+                    rng.pick(&[Path::AddLoop, Path::FromValue, Path::CollectVal, Path::ExtendRef, Path::CollectRef, Path::DefaultCtor])
                 } else {
                     rng.pick(&[Path::AddLoop, Path::ExtendVal, Path::ExtendRef])
                 }
